@@ -1,6 +1,7 @@
 package props
 
 import (
+	"strings"
 	"fmt"
 	"math/rand"
 
@@ -83,6 +84,28 @@ func genKey(r *rand.Rand, spec adapt.TableSpec) val.Item {
 	k := val.Item{"h": genTyped(spec.HashT, mon.Pick(r, []string{"p", "p.q", "1", "10"}))}
 	if spec.Range != "" {
 		k["r"] = genTyped(spec.RangeT, mon.Pick(r, []string{"1", "10", "a", "b.c"}))
+	}
+	// a number key part is sometimes written in another notation of the same value (trailing ".0", exponent
+	// with upper- or lower-case E, explicit sign): it is the same key
+	for a, v := range k {
+		if v.K == val.KN && r.Intn(3) == 0 && !strings.ContainsAny(v.Str, "eE") {
+			switch r.Intn(4) {
+			case 0:
+				if !strings.Contains(v.Str, ".") {
+					k[a] = val.Num(v.Str + ".0")
+				}
+			case 1:
+				k[a] = val.Num(v.Str + "E0")
+			case 2:
+				k[a] = val.Num(v.Str + "e+0")
+			default:
+				if strings.HasSuffix(v.Str, "0") && !strings.Contains(v.Str, ".") && len(v.Str) > 1 {
+					k[a] = val.Num(strings.TrimSuffix(v.Str, "0") + "E1")
+				} else {
+					k[a] = val.Num(v.Str + "E+0")
+				}
+			}
+		}
 	}
 	return k
 }
